@@ -456,17 +456,60 @@ func checkC01(p *core.Program, r *core.Report) {
 			"the exit a step leaves by does not come from the node's router result or its first exit")
 		// the returned exit is the node exit whose UUID equals the one left by
 		retOK := false
-		for _, ret := range core.Returns(e.pick) {
-			if len(ret.Results) == 3 && !core.IsNilConst(ret.Results[0]) {
-				for _, ce := range core.ControllingConds(ret.Block()) {
-					if bo, ok := ce.Cond.(*ssa.BinOp); ok && bo.Op == token.EQL && ce.Taken {
-						if canon(bo.Y) == canon(arg) || canon(bo.X) == canon(arg) {
-							retOK = true
-						}
+		matches := func(conds []core.CondEdge) bool {
+			for _, ce := range conds {
+				if bo, ok := ce.Cond.(*ssa.BinOp); ok && bo.Op == token.EQL && ce.Taken {
+					if canon(bo.Y) == canon(arg) || canon(bo.X) == canon(arg) {
+						return true
 					}
 				}
 			}
+			return false
 		}
+		// every non-nil exit that can be returned was selected on the edge where its UUID equals the one left by
+		// (directly at the return, or as the value a result variable was given before the loop was left)
+		var selected func(v ssa.Value, at *ssa.BasicBlock, depth int) (bool, int)
+		selected = func(v ssa.Value, at *ssa.BasicBlock, depth int) (bool, int) {
+			if core.IsNilConst(v) || depth > 4 {
+				return true, 0
+			}
+			if ph, ok := v.(*ssa.Phi); ok {
+				all, n := true, 0
+				for i, e := range ph.Edges {
+					if e == ssa.Value(ph) {
+						continue
+					}
+					pr := ph.Block().Preds[i]
+					ok2, k := selected(e, pr, depth+1)
+					if !ok2 {
+						// the edge itself may carry the test
+						if iff, isIf := pr.Instrs[len(pr.Instrs)-1].(*ssa.If); isIf && pr.Succs[0] != pr.Succs[1] && !core.IsNilConst(e) {
+							if matches([]core.CondEdge{{Cond: iff.Cond, Taken: pr.Succs[0] == ph.Block(), If: iff}}) {
+								ok2, k = true, 1
+							}
+						}
+					}
+					if !ok2 {
+						all = false
+					}
+					n += k
+				}
+				return all, n
+			}
+			return matches(core.ControllingConds(at)), 1
+		}
+		nSel := 0
+		allSel := true
+		for _, ret := range core.Returns(e.pick) {
+			if len(ret.Results) == 3 {
+				ok2, k := selected(ret.Results[0], ret.Block(), 0)
+				if !ok2 {
+					allSel = false
+				}
+				nSel += k
+			}
+		}
+		retOK = allSel && nSel > 0
 		r.Check(retOK, "R6", "pickNodeExit/returned-exit-matches", p.Pos(cs.Pos()), "returns the exit whose UUID equals the one recorded on the step",
 			"the exit returned to the loop (whose destination is followed) is not the exit recorded on the step")
 	}
@@ -737,7 +780,8 @@ func c01R7(p *core.Program, r *core.Report, e *engineFns) {
 		}
 	}
 	termOK := false
-	for _, cs := range core.Calls(e.loop, false) {
+	for _, ec := range core.EffectiveCalls(e.loop, 2) {
+		cs := ec.Inner
 		o := core.CalleeObj(cs.Common())
 		if o == nil || core.ObjName(o) != "flows.Run.Exit" {
 			continue
@@ -756,7 +800,7 @@ func c01R7(p *core.Program, r *core.Report, e *engineFns) {
 			continue
 		}
 		underTerminal, extra := false, ""
-		for _, ce := range core.MayConds(cs.Instr.Block()) {
+		for _, ce := range append(core.MayConds(ec.Outer.Block()), ec.InnerConds()...) {
 			if bo, ok := ce.Cond.(*ssa.BinOp); ok && bo.Op == token.LSS {
 				continue
 			}
@@ -775,7 +819,7 @@ func c01R7(p *core.Program, r *core.Report, e *engineFns) {
 			}
 			extra = ce.Cond.String()
 		}
-		before := newRun != nil && cs.Instr.Pos() < newRun.Pos()
+		before := newRun != nil && instrReaches(ec.Outer, newRun) && !core.InstrDominates(newRun, ec.Outer)
 		if underTerminal && extra == "" && before {
 			termOK = true
 		}
